@@ -5,6 +5,8 @@ import (
 	"errors"
 	"fmt"
 	"io"
+	"os"
+	"path/filepath"
 	"sort"
 	"strconv"
 	"strings"
@@ -267,6 +269,7 @@ type snapGate struct {
 }
 
 type clusterNode struct {
+	pctx   context.Context
 	gate   *snapGate
 	hooked *litefs.DB
 	eng    engineImpl
@@ -278,9 +281,10 @@ type clusterNode struct {
 }
 
 type clusterImpl struct {
-	c     *Ctx
-	svc   *leaseSvc
-	nodes []*clusterNode
+	genIDs []string
+	c      *Ctx
+	svc    *leaseSvc
+	nodes  []*clusterNode
 }
 
 const clusterSettle = 6 * time.Second
@@ -329,6 +333,7 @@ func (m *clusterImpl) start(k int) string {
 	n.leaser = &nodeLeaser{svc: m.svc, idx: k, host: fmt.Sprintf("node%d", k)}
 	n.client = &netClient{inner: lhttp.NewClient(), streams: map[*netStream]struct{}{}}
 	n.eng.exit = 0
+	n.pctx = nil
 	n.eng.configure = func(st *litefs.Store) error {
 		srv := lhttp.NewServer(st, "127.0.0.1:0")
 		if err := srv.Listen(); err != nil {
@@ -738,20 +743,174 @@ func (m *clusterImpl) Do(line string) string {
 	case "pause": // let in-flight stream frames land (e.g. a forwarded transaction echoed back to its author)
 		time.Sleep(40 * time.Millisecond)
 		return "ok"
-	case "roles":
+	case "roles": // <k>=<primary|replica|idle|down>/<cluster id class>
 		var sb strings.Builder
 		for i, n := range m.nodes {
 			r := "down"
+			cid := "-"
 			if n.up && n.eng.store != nil {
-				if n.eng.store.IsPrimary() {
+				isP, info := n.eng.store.PrimaryInfo()
+				switch {
+				case isP:
 					r = "primary"
-				} else {
+				case n.client.blocked.Load():
+					r = "cut" // it keeps trying: whether it is between two attempts is not stable
+				case info != nil:
 					r = "replica"
+				default:
+					r = "idle"
+				}
+				cid = m.cidClass(n.eng.store.ClusterID())
+			}
+			fmt.Fprintf(&sb, "%d=%s/%s ", i, r, cid)
+		}
+		m.svc.mu.Lock()
+		fmt.Fprintf(&sb, "svc=%d/%s", m.svc.holder, m.cidClass(m.svc.clusterID))
+		m.svc.mu.Unlock()
+		return sb.String()
+	case "events": // lease-service events since the last call
+		m.svc.mu.Lock()
+		ev := strings.Join(m.svc.log, ";")
+		m.svc.log = nil
+		m.svc.mu.Unlock()
+		if ev == "" {
+			return "-"
+		}
+		return ev
+	case "renewerr":
+		if len(f) != 2 {
+			return "bad-op"
+		}
+		m.svc.mu.Lock()
+		m.svc.renewErr = f[1] == "on"
+		holder := m.svc.holder
+		m.svc.mu.Unlock()
+		if f[1] == "on" && holder >= 0 && m.nodes[holder].up {
+			// renewals now fail: the primary gives up once a full TTL has passed without one
+			for i := 0; i < 3000 && m.nodes[holder].eng.store.IsPrimary(); i++ {
+				time.Sleep(time.Millisecond)
+			}
+		}
+		return "ok"
+	case "clusterid-svc":
+		if len(f) != 2 {
+			return "bad-op"
+		}
+		m.svc.mu.Lock()
+		m.svc.clusterID = cidOf(f[1])
+		m.svc.mu.Unlock()
+		return "ok"
+	case "clusterid-node": // clusterid-node <k> <A|B>: what the node's data directory holds (node must be down)
+		if len(f) != 3 {
+			return "bad-op"
+		}
+		n, _ := m.node(f[1])
+		if n == nil || n.up {
+			return "bad-op"
+		}
+		if n.eng.dir == "" {
+			d, err := os.MkdirTemp(os.Getenv("VERIF_SCRATCH"), "verif-eng-")
+			if err != nil {
+				return "err"
+			}
+			n.eng.dir = d
+		}
+		_ = os.MkdirAll(filepath.Join(n.eng.dir, "data"), 0o777)
+		if err := os.WriteFile(filepath.Join(n.eng.dir, "data", "clusterid"), []byte(cidOf(f[2])+"\n"), 0o666); err != nil {
+			return "err"
+		}
+		return "ok"
+	case "handoff": // handoff <p> <k>: ask node p to hand its lease to node k
+		if len(f) != 3 {
+			return "bad-op"
+		}
+		p, _ := m.node(f[1])
+		k, _ := m.node(f[2])
+		if p == nil || k == nil || !p.up || !k.up {
+			return "bad-op"
+		}
+		ctx, cancel := context.WithTimeout(context.Background(), time.Second)
+		defer cancel()
+		if err := p.eng.store.Handoff(ctx, k.eng.store.ID()); err != nil {
+			return "err"
+		}
+		return "ok"
+	case "pctx-take", "pctx": // a primary-scoped context taken while the node is primary; is it still alive?
+		if len(f) != 2 {
+			return "bad-op"
+		}
+		n, _ := m.node(f[1])
+		if n == nil || !n.up {
+			return "bad-op"
+		}
+		if f[0] == "pctx-take" {
+			n.pctx = n.eng.store.PrimaryCtx(context.Background())
+			if n.pctx.Err() != nil {
+				return "done"
+			}
+			return "alive"
+		}
+		if n.pctx == nil {
+			return "none"
+		}
+		if n.pctx.Err() != nil {
+			return "done"
+		}
+		return "alive"
+	case "quiet": // wait until every node's belief about being primary agrees with the lease service
+		deadline := time.Now().Add(4 * time.Second)
+		stable := 0
+		for time.Now().Before(deadline) {
+			m.svc.mu.Lock()
+			holder := m.svc.holder
+			m.svc.mu.Unlock()
+			ok := true
+			for i, n := range m.nodes {
+				if n.up && n.eng.store != nil && n.eng.store.IsPrimary() != (holder == i) {
+					ok = false
 				}
 			}
-			fmt.Fprintf(&sb, "%d=%s ", i, r)
+			if ok {
+				stable++
+				if stable >= 25 {
+					return "ok"
+				}
+			} else {
+				stable = 0
+			}
+			time.Sleep(2 * time.Millisecond)
 		}
-		return strings.TrimSpace(sb.String())
+		return "lag"
 	}
 	return "bad-op"
+}
+
+// cluster ids of the suites: class A / B are fixed valid ids; ids generated by a node are numbered
+// in order of first appearance
+func cidOf(class string) string {
+	switch class {
+	case "A":
+		return "LFSCAAAAAAAAAAAAAAAA"
+	case "B":
+		return "LFSCBBBBBBBBBBBBBBBB"
+	}
+	return ""
+}
+
+func (m *clusterImpl) cidClass(id string) string {
+	switch id {
+	case "":
+		return "none"
+	case cidOf("A"):
+		return "A"
+	case cidOf("B"):
+		return "B"
+	}
+	for i, g := range m.genIDs {
+		if g == id {
+			return fmt.Sprintf("G%d", i+1)
+		}
+	}
+	m.genIDs = append(m.genIDs, id)
+	return fmt.Sprintf("G%d", len(m.genIDs))
 }
